@@ -529,6 +529,23 @@ def extract_fn(src, selector, spec):
                 ed.rep(t.start, toks[k + 7].end, 'vx_iter_any(&%s, ' % t.text)
                 k += 8
                 continue
+            # R13: `let &PAT = &EXPR;` -> `let PAT = EXPR;`  (Verus rejects reference patterns.  The
+            # original compiles, so every binding of PAT is Copy - a non-Copy binding cannot be moved
+            # out of a borrow - hence destructuring the place by value copies the same fields and
+            # leaves EXPR usable, exactly as the borrowed form does.)
+            if t.kind == 'ident' and t.text == 'let' and toks[k + 1].kind == 'punct' and toks[k + 1].text == '&' and \
+               not (toks[k + 2].kind == 'ident' and toks[k + 2].text == 'mut'):
+                j = k + 2
+                while j < hi and not (toks[j].kind == 'punct' and toks[j].text in ('=', ';')):
+                    if toks[j].kind == 'open':
+                        j = match[j]
+                    j += 1
+                if j < hi and toks[j].text == '=' and toks[j + 1].kind == 'punct' and toks[j + 1].text == '&' and \
+                   not (toks[j + 2].kind == 'ident' and toks[j + 2].text == 'mut'):
+                    ed.rep(toks[k + 1].start, toks[k + 1].end, '')
+                    ed.rep(toks[j + 1].start, toks[j + 1].end, '')
+                    k += 2
+                    continue
             if t.kind == 'ident' and t.text in ('write', 'writeln') and toks[k + 1].text == '!' and toks[k + 2].kind == 'open':
                 c = match[k + 2]
                 if toks[c + 1].text == '?' and toks[c + 2].text == ';':
